@@ -1273,6 +1273,12 @@ func (g *Gen) tryStmt(d int) []Stmt {
 	g.pushScope()
 	body := &Block{}
 	body.Stmts = append(body.Stmts, g.stmts(1+g.R.Intn(2), d-1)...)
+	if g.F.Closures && d > 1 && g.R.Chance(1, 3) {
+		// a function literal written and called inside the try block, before the statement that may
+		// throw: what the literal's body does (return, its own try) must not touch this handler
+		g.cover("closure-in-try")
+		body.Stmts = append(body.Stmts, g.closureStmts(d-1)...)
+	}
 	msg := fmt.Sprintf("boom%d", g.R.Intn(100))
 	var thrower Stmt = ExprStmt{If{Cond: g.expr(Bool, d-1), Then: &Block{Stmts: []Stmt{ExprStmt{Builtin{"throw", []Expr{StrLit{msg}}}}}}}}
 	if g.R.Chance(1, 4) {
